@@ -38,6 +38,9 @@ CHECKS = {
  "C06": ("model_checking", "explicit-state BFS over event histories replayed on the real server resumption path, canonical-state de-duplication, reference map of sessions, scripted requesters and verbatim replays in every state",
          "E-BFS", "All histories up to depth 4 (quick) / 6 (thorough) over 12 events (establish keyed / authenticated key-less / plaintext session, resume with right id+key with and without reply, legitimate client resumption, three virtual-time advances, invalidate, sweep), de-duplicated by canonical state; in every state a battery of scripted resumption requests ({keyed, key-less, plaintext, unknown id} x {wrong key, no key} x {reply, none} x {same, other address}, every single-character alteration of a live id) and byte-for-byte replays (whole and truncated at each frame) of recorded resumed connections hit the real server. The server may resume only a live keyed session, must answer SID_NOT_FOUND when asked, must never hand application bytes from a key-less requester to its caller nor write readable bytes, and a legitimate resumption restores key, user and authentication status.",
          "Virtual time = re-storing cache entries with shifted expirations (public API); judgements within 30 s of an expiry are skipped; sequential in one process because the server cache is process-global.", "DESIGN.md §3 C06"),
+ "C07": ("model_checking", "explicit-state BFS over client-side histories replayed on a real client cache and two real servers, canonical-state de-duplication, reference map (tag, address, command) -> reusable sessions",
+         "E-BFS", "All histories up to depth 3 (quick) / 4 (thorough) over 20 events (12 handshakes over tag x server x command, server restarts, lost resumption request / reply, two virtual-time advances, invalidation, sweep), de-duplicated by canonical state: the resumption request the server receives (parsed off the wire) may name only a session established under the same tag and address, valid for that command and still alive; a failed resumption must remove the session and every route to it; after every event every route in the real cache must be allowed by the reference map.",
+         "Only safety is demanded; sequential in one process; virtual time via re-stored entries.", "DESIGN.md §3 C07"),
 }
 PENDING = "check not built yet in this session (planned, DESIGN.md section 3); listed here until its check is registered"
 def main():
